@@ -12,10 +12,12 @@ Valid(kind, b) ==
     [] kind = "unprot" -> LET r == ParseAll(b) IN r.ok /\ WFUnprot(r.item)
 MInModel(kind, m) == LayerInModel(m) /\ (kind = "sign" => \A i \in 1..Len(m.sigs) : LayerInModel(m.sigs[i]))
 
+DeRawMsg(kind, m) == IF kind = "sign" THEN [DeRawLayer(m) EXCEPT !.sigs = [i \in 1..Len(m.sigs) |-> DeRawLayer(m.sigs[i])]] ELSE DeRawLayer(m)
 Fails(e) ==
-  LET inm == MInModel(e.kind, e.m) IN
+  LET inm == MInModel(e.kind, e.m)
+      judgeable == MInModel(e.kind, DeRawMsg(e.kind, e.m)) IN
   (IF e.image # ImageOf(e.kind, e.m) THEN {"infra-image-mismatch"} ELSE {})
-  \cup (IF inm /\ e.enc = "ok" /\ ~Valid(e.kind, e.out) THEN {"produced-invalid"} ELSE {})
+  \cup (IF judgeable /\ e.enc = "ok" /\ ~Valid(e.kind, e.out) THEN {"produced-invalid"} ELSE {})
   \cup (IF e.dec = "ok" /\ ~Valid(e.kind, e.image) THEN {"accepted-invalid"} ELSE {})
   \cup (IF inm /\ e.enc = "ok" /\ e.dec # "ok" THEN {"encode-accepts-decode-refuses"} ELSE {})
   \cup (IF inm /\ e.enc # "ok" /\ e.dec = "ok" THEN {"encode-refuses-decode-accepts"} ELSE {})
